@@ -1795,6 +1795,37 @@ def closure_bindings(params, xs):
     return m
 
 
+_NAME_SUFFIX_RE = None
+
+
+def unsuffix(t):
+    """normal form with the renaming suffixes of expanded / unrolled locals (`x'3`, `x'u2`) removed from variable names and from
+    the names pattern keys bind (the locals of an expanded helper are the caller's locals as far as assumptions are concerned)"""
+    global _NAME_SUFFIX_RE
+    if _NAME_SUFFIX_RE is None:
+        import re as _re
+        _NAME_SUFFIX_RE = _re.compile(r"'u?\d+$")
+    if isinstance(t, PK):
+        r = PK(tuple(unsuffix(x) if isinstance(x, tuple) else x for x in t))
+        b = t.binds
+        if isinstance(b, tuple):
+            b = tuple(_NAME_SUFFIX_RE.sub("", x) if isinstance(x, str) else x for x in b)
+        elif isinstance(b, dict):
+            b = {k: (_NAME_SUFFIX_RE.sub("", v) if isinstance(v, str) else v) for k, v in b.items()}
+        r.binds = b
+        r.sub = t.sub
+        return r
+    if isinstance(t, tuple):
+        if len(t) == 2 and t[0] == "var" and isinstance(t[1], str):
+            return ("var", _NAME_SUFFIX_RE.sub("", t[1]))
+        if t[:1] == ("closure",) and len(t) == 3 and isinstance(t[1], tuple):
+            ps = tuple(tuple(_NAME_SUFFIX_RE.sub("", y) for y in x) if isinstance(x, tuple) else (_NAME_SUFFIX_RE.sub("", x) if isinstance(x, str) else x)
+                       for x in t[1])
+            return ("closure", ps, unsuffix(t[2]))
+        return tuple(unsuffix(x) if isinstance(x, tuple) else x for x in t)
+    return t
+
+
 def _decided_tuple(sc):
     """a tuple scrutinee whose every component is a value a pattern can be decided against"""
     return isinstance(sc, tuple) and sc[:1] == ("tup",) and len(sc) > 1 and \
